@@ -28,7 +28,7 @@ class Builtins:
                      "list_eq", "sorted_desc_by", "iter_trace_len", "iter_trace_arg", "iter_trace_method",
                      "iter_trace_kw", "has_key", "perm_of", "strcat", "old_len", "typename", "called", "iter_called",
                      "out_len", "out_method", "out_arg", "out_kw", "call_result", "iter_call_result", "call_count",
-                     "iter_call_count", "dict_values", "dict_get", "dict_keys"}
+                     "iter_call_count", "dict_values", "dict_get", "dict_keys", "count_char"}
     type_names = {"ValueError", "KeyError", "IndexError", "TypeError", "Exception", "UnicodeDecodeError",
                   "StopIteration", "RuntimeError", "AttributeError", "OSError", "FileNotFoundError",
                   "NotImplementedError", "RecursionError", "AssertionError", "BaseException", "ZeroDivisionError",
@@ -313,9 +313,9 @@ class Builtins:
         if sl.lower is None and sl.upper is None and sl.step is None and isinstance(base, VList):
             src = v if isinstance(v, VList) else eng.materialize(st, v, base.elem)
             es = sort_of(base.elem)
-            st.heap[("LEN",)] = z3.Store(st.lenmap(), base.ref, eng.list_len(st, src))
+            st.heap[("LEN",)] = E.SStore(st.lenmap(), base.ref, eng.list_len(st, src))
             em = st.eltmap(es)
-            st.heap[("ELT", sort_name(es))] = z3.Store(em, base.ref, z3.Select(em, src.ref))
+            st.heap[("ELT", sort_name(es))] = E.SStore(em, base.ref, z3.Select(em, src.ref))
             ln = getattr(node, "lineno", 0)
             st.writes.append((("LEN",), base.ref, ln))
             st.writes.append((("ELT", sort_name(es)), base.ref, ln))
@@ -1024,6 +1024,11 @@ class Builtins:
             return res
         cnt = self.count_sym_fn(st, comp)
         total = cnt(arr, n)
+        mt0 = eng.unwrap(s, mv, elem_t)
+        if mt0.eq(z3.Select(arr, k)):
+            # identity map: the content is FILT_p(arr, n), a function of the source (so that two filters of
+            # the same list by pointwise-equal predicates are the same term)
+            return self.filter_list(st, comp, cnt, arr, n, elem_t)
         res = eng.new_list(st, elem_t, total)
         dst = z3.Select(st.eltmap(res_sort), res.ref)
         pt = comp.pred_fn(s, x_k)
@@ -1047,6 +1052,47 @@ class Builtins:
         a, b = z3.Int("fa!"), z3.Int("fb!")
         st.assume(FA([a, b], z3.Implies(z3.And(a >= 0, a < b, b < total), srcf(a) < srcf(b)),
                             patterns=[z3.MultiPattern(srcf(a), srcf(b))]))
+        st.ghost = dict(st.ghost)
+        comps = dict(st.ghost.get("comps", {}))
+        comps[str(res.ref)] = comp
+        st.ghost["comps"] = comps
+        return res
+
+    def filter_list(self, st, comp, cnt, arr, n, elem_t):
+        eng = self.eng
+        x, t = self._abstract(st, comp, "pred")
+        ent = self._sum_entry(st, x, z3.simplify(z3.If(t, z3.IntVal(1), z3.IntVal(0))))
+        asort = z3.ArraySort(z3.IntSort(), x.sort())
+        if "filt" not in ent:
+            F = z3.Function(f"FILT{ent['idx']}", asort, z3.IntSort(), asort)
+            SRC = z3.Function(f"FSRC{ent['idx']}", asort, z3.IntSort(), z3.IntSort(), z3.IntSort())
+            ent["filt"], ent["fsrc"] = F, SRC
+            a = z3.Const("fa!", asort)
+            nn, k, j, j2 = z3.Ints("fn! fk! fj! fj2!")
+            f = ent["fn"]
+            pk = z3.substitute(t, (x, z3.Select(a, k)))
+            ax = eng.axioms
+            keys = {F.name(), SRC.name()}
+            # the k-th source element, if kept, lands at index count(prefix k)
+            ax.append(FA([a, nn, k], z3.Implies(z3.And(k >= 0, k < nn, pk), z3.Select(F(a, nn), f(a, k)) == z3.Select(a, k)),
+                         patterns=[z3.MultiPattern(F(a, nn), f(a, k))]), keys=keys)
+            # every result element comes from a kept source element; sources are increasing
+            ps = z3.substitute(t, (x, z3.Select(a, SRC(a, nn, j))))
+            ax.append(FA([a, nn, j], z3.Implies(z3.And(j >= 0, j < f(a, nn)),
+                                                z3.And(SRC(a, nn, j) >= 0, SRC(a, nn, j) < nn, ps, f(a, SRC(a, nn, j)) == j,
+                                                       z3.Select(F(a, nn), j) == z3.Select(a, SRC(a, nn, j)))),
+                         patterns=[z3.Select(F(a, nn), j)]), keys=keys)
+            ax.append(FA([a, nn, j, j2], z3.Implies(z3.And(j >= 0, j < j2, j2 < f(a, nn)), SRC(a, nn, j) < SRC(a, nn, j2)),
+                         patterns=[z3.MultiPattern(SRC(a, nn, j), SRC(a, nn, j2))]), keys=keys)
+            eng.used_assumptions.add("lemma schema: a filtered list is the subsequence of kept elements (placement by prefix count, "
+                                     "increasing source indices); characterises [x for x in xs if p(x)]")
+        F = ent["filt"]
+        total = cnt(arr, n)
+        res = eng.new_list(st, elem_t, total)
+        es = sort_of(elem_t)
+        st.heap[("ELT", sort_name(es))] = E.SStore(st.eltmap(es), res.ref, F(arr, n))
+        st.assume(total >= 0)
+        st.assume(total <= n)
         st.ghost = dict(st.ghost)
         comps = dict(st.ghost.get("comps", {}))
         comps[str(res.ref)] = comp
@@ -1193,12 +1239,41 @@ class Builtins:
         else:
             rng = z3.And(qs[0] >= eng.as_int(lo), qs[0] < qs[1], qs[1] < eng.as_int(hi))
         # side facts (len >= 0, well-formed reads) are heap facts about the elements in range
+        pats = None
         for p in side:
             if any(self._mentions(p, q) for q in qs):
                 st.assume(FA(qs, z3.Implies(rng, p)))
             else:
                 st.assume(p)
-        return VBool(FA(qs, z3.Implies(rng, body)))
+        return VBool(FA(qs, z3.Implies(rng, body), patterns=pats))
+
+    def _index_patterns(self, qs, terms):
+        """Triggers for a quantified list property: the element reads xs[q] (Select(arr, q) with arr free of q)."""
+        found = {q.get_id(): [] for q in qs}
+        seen = set()
+        stack = list(terms)
+        qids = {q.get_id(): q for q in qs}
+        while stack:
+            x = stack.pop()
+            if x.get_id() in seen:
+                continue
+            seen.add(x.get_id())
+            if z3.is_quantifier(x):
+                continue
+            if z3.is_app(x):
+                if x.decl().kind() == z3.Z3_OP_SELECT and x.arg(1).get_id() in qids:
+                    names = E.term_consts(x.arg(0))
+                    if not any(q.decl().name() in names for q in qs):
+                        lst = found[x.arg(1).get_id()]
+                        if len(lst) < 3 and not any(y.eq(x) for y in lst):
+                            lst.append(x)
+                stack.extend(x.children())
+        if any(not v for v in found.values()):
+            return None
+        if len(qs) == 1:
+            return list(found[qs[0].get_id()])
+        import itertools
+        return [z3.MultiPattern(*combo) for combo in itertools.islice(itertools.product(*[found[q.get_id()] for q in qs]), 4)]
 
     def sp_exists(self, st, args, kwargs, node):
         eng = self.eng
@@ -1263,9 +1338,22 @@ class Builtins:
         return VInt(self.sum_sym(st, arr, ln, mf, pf, xs.elem))
 
     def sp_same_list(self, st, args, kwargs, node):
-        return VBool(self.list_eq(st, args[0], args[1]))
+        """same length and identical elements (object identity for references)"""
+        eng = self.eng
+        a, b = args
+        if isinstance(a, VCList):
+            a = eng.materialize(st, a)
+        if isinstance(b, VCList):
+            b = eng.materialize(st, b, a.elem)
+        na, nb = eng.list_len(st, a), eng.list_len(st, b)
+        aa, ab = eng.list_arr(st, a), eng.list_arr(st, b)
+        if aa.eq(ab):
+            return VBool(na == nb)
+        k = z3.Int("sl!")
+        return VBool(z3.And(na == nb, FA([k], z3.Implies(z3.And(k >= 0, k < na), z3.Select(aa, k) == z3.Select(ab, k)))))
 
-    sp_list_eq = sp_same_list
+    def sp_list_eq(self, st, args, kwargs, node):
+        return VBool(self.list_eq(st, args[0], args[1]))
 
     def sp_fmt(self, st, args, kwargs, node):
         spec = args[0].concrete()
@@ -1276,6 +1364,21 @@ class Builtins:
         for a in args[1:]:
             t = z3.Concat(t, a.t)
         return VStr(t)
+
+    def sp_count_char(self, st, args, kwargs, node):
+        """count_char(s, ch, n): occurrences of the one-character string ch in s[:n] (n defaults to len(s))."""
+        sv, ch = args[0], args[1]
+        n = self.eng.as_int(args[2]) if len(args) > 2 else z3.Length(sv.t)
+        f = z3.Function("STRCNT", z3.StringSort(), z3.StringSort(), z3.IntSort(), z3.IntSort())
+        if not getattr(self, "_strcnt_ax", False):
+            self._strcnt_ax = True
+            a, c = z3.String("sca!"), z3.String("scc!")
+            k = z3.Int("sck!")
+            ax = self.eng.axioms
+            ax.append(FA([a, c], f(a, c, 0) == 0), keys={"STRCNT"})
+            ax.append(FA([a, c, k], z3.Implies(k >= 0, f(a, c, k + 1) == f(a, c, k) + z3.If(z3.SubString(a, k, 1) == c, 1, 0)),
+                         patterns=[f(a, c, k + 1)]), keys={"STRCNT"})
+        return VInt(f(sv.t, ch.t, n))
 
     def sp_dict_values(self, st, args, kwargs, node):
         return self.dict_values_list(st, args[0])
@@ -1485,8 +1588,8 @@ class Builtins:
                                     patterns=[z3.Select(new, k)]))
                 st.assume(FA([k], z3.Implies(z3.And(k >= 0, k < m), z3.Select(new, n + k) == z3.Select(sarr, k)),
                                     patterns=[z3.Select(sarr, k)]))
-                st.heap[("ELT", sort_name(es))] = z3.Store(em, l.ref, new)
-                st.heap[("LEN",)] = z3.Store(st.lenmap(), l.ref, n + m)
+                st.heap[("ELT", sort_name(es))] = E.SStore(em, l.ref, new)
+                st.heap[("LEN",)] = E.SStore(st.lenmap(), l.ref, n + m)
                 ln = getattr(node, "lineno", 0)
                 st.writes.append((("ELT", sort_name(es)), l.ref, ln))
                 st.writes.append((("LEN",), l.ref, ln))
@@ -1509,7 +1612,7 @@ class Builtins:
             ln = getattr(node, "lineno", 0)
             if not args:
                 v = eng.list_get_raw(st, l, n - 1)
-                st.heap[("LEN",)] = z3.Store(st.lenmap(), l.ref, n - 1)
+                st.heap[("LEN",)] = E.SStore(st.lenmap(), l.ref, n - 1)
                 st.writes.append((("LEN",), l.ref, ln))
                 return v
             i0 = z3.simplify(args[0].t)
@@ -1521,8 +1624,8 @@ class Builtins:
                 k = z3.Int("pk!")
                 st.assume(FA([k], z3.Implies(z3.And(k >= 0, k < n - 1), z3.Select(new, k) == z3.Select(old, k + 1)),
                                     patterns=[z3.Select(new, k)]))
-                st.heap[("ELT", sort_name(es))] = z3.Store(em, l.ref, new)
-                st.heap[("LEN",)] = z3.Store(st.lenmap(), l.ref, n - 1)
+                st.heap[("ELT", sort_name(es))] = E.SStore(em, l.ref, new)
+                st.heap[("LEN",)] = E.SStore(st.lenmap(), l.ref, n - 1)
                 st.writes.append((("ELT", sort_name(es)), l.ref, ln))
                 st.writes.append((("LEN",), l.ref, ln))
                 return v
@@ -1538,7 +1641,7 @@ class Builtins:
             r = self.list_reversed_copy(st, l)
             es = sort_of(l.elem)
             em = st.eltmap(es)
-            st.heap[("ELT", sort_name(es))] = z3.Store(em, l.ref, z3.Select(em, r.ref))
+            st.heap[("ELT", sort_name(es))] = E.SStore(em, l.ref, z3.Select(em, r.ref))
             st.writes.append((("ELT", sort_name(es)), l.ref, getattr(node, "lineno", 0)))
             return VNone()
         if name == "index":
